@@ -107,6 +107,77 @@ theorem C18_decision_struct (as : List (List ItemAttr)) (fs : List FieldDef) :
       · simp
     · simp
 
+theorem variantFields_none_iff (vs : List VariantDef) :
+    (vs.findSome? fun v => checkFields v.fields) = none ↔
+      ∀ f ∈ (vs.map (·.fields)).flatten, checkField f = none := by
+  rw [List.findSome?_eq_none_iff]
+  simp only [checkFields_none_iff, List.mem_flatten, List.mem_map]
+  constructor
+  · rintro h f ⟨l, ⟨v, hv, rfl⟩, hf⟩; exact h v hv f hf
+  · intro h v hv f hf; exact h f ⟨v.fields, ⟨v, hv, rfl⟩, hf⟩
+
+theorem fieldRules_iff (fs : List FieldDef) :
+    (∀ f ∈ fs, checkField f = none) ↔
+      (fs.any (fun f => decide (f.attrs.length > 1)) = false ∧ fs.any (fun f => f.hasUnknown) = false ∧
+       fs.any (fun f => f.conflict) = false) := by
+  simp only [checkField_none_iff, List.any_eq_false, decide_eq_true_eq]
+  constructor
+  · intro h
+    refine ⟨?_, ?_, ?_⟩
+    · intro f hf; have := (h f hf).1; omega
+    · intro f hf; simp [(h f hf).2.1]
+    · intro f hf; simp [(h f hf).2.2]
+  · intro h f hf
+    refine ⟨?_, ?_, ?_⟩
+    · have := h.1 f hf; omega
+    · have := h.2.1 f hf; simpa using this
+    · have := h.2.2 f hf; simpa using this
+
+/-- **An enum compiles exactly when it violates none of the rules** — whatever the number, order
+and shapes of its variants, wherever an offending discriminant, field or attribute stands. -/
+theorem C18_decision_enum (as : List (List ItemAttr)) (vs : List VariantDef) :
+    accepts (.enum_ as vs) = none ↔ violatesSomeRule (.enum_ as vs) = false := by
+  have hf := (variantFields_none_iff vs).trans (fieldRules_iff _)
+  simp only [accepts, violatesSomeRule, isUnion, repeatedBorshAttr, unknownItemKey, unknownFieldKey,
+    skipConflict, useDiscrOnStruct, useDiscrNotBool, explicitDiscrWithoutSetting, tooManyVariants,
+    discrDoesNotFit, itemAttrsOf, fieldsOf, Bool.false_or, Bool.or_false]
+  by_cases h1 : as.length > 1
+  · simp [h1]
+  · simp only [h1, if_false, decide_false, Bool.false_or]
+    cases h2 : hasUnknownItemKey as
+    · simp only [Bool.false_eq_true, if_false, Bool.false_or]
+      by_cases h3 : vs.length > 256
+      · simp [h3]
+      · simp only [h3, if_false, decide_false, Bool.or_false]
+        cases h4 : useDiscrSetting as.flatten with
+        | none =>
+          simp only
+          cases h5 : vs.any (fun v => v.discr.isSome)
+          · simp only [Bool.false_eq_true, if_false, hf]
+            simp [Bool.or_eq_false_iff, and_assoc]
+          · simp
+        | some b =>
+          cases b with
+          | none => simp
+          | some use =>
+            simp only
+            cases use
+            · simp only [Bool.false_and, Bool.false_eq_true, if_false, hf]
+              simp [Bool.or_eq_false_iff, and_assoc]
+            · simp only [Bool.true_and]
+              cases h5 : (discriminants (vs.map (·.discr)) 0).any (fun d => decide (d < 0) || decide (255 < d))
+              · simp only [Bool.false_eq_true, if_false, hf]
+                simp [Bool.or_eq_false_iff, and_assoc]
+              · simp
+    · simp
+
+/-- the decision for every item -/
+theorem C18_decision (d : ItemDef) : accepts d = none ↔ violatesSomeRule d = false := by
+  cases d with
+  | struct_ as fs => exact C18_decision_struct as fs
+  | enum_ as vs => exact C18_decision_enum as vs
+  | union_ => simp [accepts, violatesSomeRule, isUnion]
+
 /-- unions never compile -/
 theorem C18_union_rejected : accepts .union_ = some .union_ := rfl
 
